@@ -457,7 +457,13 @@ def point(prog, rng, which, k, rep):
     if rep == 'aff':
         return prog.let(g + '.lit', rm.jac_lit(F, P))[0]
     if rep == 'scaled':
-        return prog.let(g + '.lit', rm.jac_lit(F, P, lam_for(rng, which)))[0]
+        lam = lam_for(rng, which)
+        if rng.random() < 0.3:
+            # a scale for which the point becomes affine (z = 1) exactly after k doublings inside a ladder / Miller loop
+            l2 = znorm_lambda(which, P, rng.choice([1, 2, 3, 3, 4]))
+            if l2 is not None:
+                lam = l2
+        return prog.let(g + '.lit', rm.jac_lit(F, P, lam))[0]
     if rep == 'setters':
         # start from the generator and overwrite every coordinate through the public setters
         lam = lam_for(rng, which)
@@ -624,3 +630,62 @@ def mid_reduction_square(rng, p):
         if 'overflow-by-pending-carry-only@1' in ev:
             return rm.unmont(A, p)
     return None
+
+
+# --------------------------------------------------------------------------- representatives that become affine mid-ladder
+def _jac_double(F, X, Y, Z):
+    """replica of the crate's a = 0 doubling (dbl-2009-l), used only to AIM inputs"""
+    A = F.mul(X, X)
+    B = F.mul(Y, Y)
+    C = F.mul(B, B)
+    t = F.add(X, B)
+    D = F.sub(F.sub(F.mul(t, t), A), C)
+    D = F.add(D, D)
+    E = F.add(A, F.add(A, A))
+    Fv = F.mul(E, E)
+    X3 = F.sub(Fv, F.add(D, D))
+    C8 = F.add(C, C)
+    C8 = F.add(C8, C8)
+    C8 = F.add(C8, C8)
+    Y3 = F.sub(F.mul(E, F.sub(D, X3)), C8)
+    Z3 = F.mul(Y, Z)
+    Z3 = F.add(Z3, Z3)
+    return X3, Y3, Z3
+
+
+def _root_pow2(which, c, times):
+    """some x with x^(2^times) = c in Fq (which=1) or Fq2 (which=2), or None"""
+    sq = rm.fq_sqrt if which == 1 else rm.f2sqrt
+    issq = rm.fq_issq if which == 1 else rm.f2issq
+    neg = (lambda v: (-v) % q) if which == 1 else rm.f2neg
+    x = c
+    for i in range(times):
+        s = sq(x)
+        if s is None:
+            return None
+        if i < times - 1 and not issq(s):
+            s = neg(s)
+            if not issq(s):
+                return None
+        x = s
+    return x
+
+
+def znorm_lambda(which, P, k):
+    """a scale factor l such that the representative (l^2 x, l^3 y, l) of the affine point P has z = 1 exactly after k library
+    doublings (z scales by l^(4^k)); None when the required 4^k-th root does not exist"""
+    F = F1 if which == 1 else F2
+    X, Y, Z = P[0], P[1], F.one
+    for _ in range(k):
+        X, Y, Z = _jac_double(F, X, Y, Z)
+    if Z == F.zero:
+        return None
+    l = _root_pow2(which, F.inv(Z), 2 * k)
+    if l is None:
+        return None
+    # check with the replica
+    l2 = F.mul(l, l)
+    X, Y, Z = F.mul(P[0], l2), F.mul(P[1], F.mul(l2, l)), l
+    for _ in range(k):
+        X, Y, Z = _jac_double(F, X, Y, Z)
+    return l if Z == F.one else None
